@@ -217,7 +217,10 @@ def check_restarts(cur):
                     cur.v('dt_new_formula', block=a['block'], slot=a['slot'], got=got, want=want, est=est, dt=dt)
                 a['binds'] = binds
             # (f) a rejected step is retried with a smaller step unless a configured lower limit binds
-            if r is not None and bi + 1 < len(blks) and blk[r]['post']['est'] is not None and blk[r]['post']['est'] >= e_tol:
+            # (restarting from the first step: the rejected step is any step of the block whose estimate is above the tolerance;
+            # the whole block, and with it that step, is recomputed with the next block's step size)
+            rejected_here = [a for a in (blk if from_first else blk[r : r + 1] if r is not None else []) if a['post']['est'] is not None and a['post']['est'] >= e_tol]
+            if r is not None and bi + 1 < len(blks) and rejected_here:
                 src = blk[r] if not from_first else min((a for a in blk if a['post']['dt_new'] is not None), key=lambda a: a['post']['dt_new'], default=blk[r])
                 nb = blks[bi + 1][0]
                 if not (nb['pre']['dt'] < blk[r]['post']['dt']) and src.get('binds') not in ('dt_min', 'slope_min'):
